@@ -47,6 +47,18 @@ fn encode_csv(value: Value, delimiter: Value) -> Resolved {
     // we must remove it manually here.
     result.pop();
 
+    // A csv reader drops a UTF-8 BOM at the very start of its input, so a first field that
+    // begins with U+FEFF has to be quoted. It was written bare here, which means that it
+    // contains neither a delimiter nor a quote: wrapping it in quotes is enough.
+    if result.starts_with("\u{feff}".as_bytes()) {
+        let end = result
+            .iter()
+            .position(|byte| *byte == single_byte_delimiter)
+            .unwrap_or(result.len());
+        result.insert(end, b'"');
+        result.insert(0, b'"');
+    }
+
     Ok(Value::Bytes(Bytes::from(result)))
 }
 
